@@ -237,6 +237,11 @@ def execute(case, ctx):
             # attribute to module-level sites of that file
             f = [f for f in prog["files"] if f["name"] == fn][0]
             cands = [sid for sid, s in f["sites"].items() if s["place"] == "module" and sid not in exempt and sid in events_by_site]
+            if msg.startswith("SyntaxError"):
+                # the rewritten file as a whole is not a valid module (nothing to attribute to one site)
+                out["violations"].append({"clause": "readback", "sig": "module-does-not-compile-after-rewrite",
+                                          "detail": f"{fn} fmt={fmt_tag(fmt)} driver={driver}: {msg}\n{text_new.get(fn, '')[:900]}"})
+                continue
             for sid in cands or [next(iter(f["sites"]))]:
                 fail(sid, f"module does not import with inline-snapshot disabled: {msg}")
         return out
